@@ -75,6 +75,19 @@ def fast_tmp():
         tempfile.tempdir = d
 
 
+def quiet_size(f):
+    """size of the file behind a file object, leaving the object alone (None: unknown)"""
+    import io
+    import os
+
+    try:
+        if isinstance(f, io.BytesIO):
+            return f.getbuffer().nbytes
+        return os.fstat(f.fileno()).st_size
+    except Exception:  # noqa: BLE001
+        return None
+
+
 def pattern():
     """successive 4-byte big-endian counters; appended data is the next slice"""
     global _PAT
@@ -408,8 +421,13 @@ def run_history(ov, ops, stats=None, mutable=False):
                 f = inner.file
                 pos = f.tell()
                 if not left_unrestored:
-                    end = f.seek(0, 2)
-                    f.seek(pos)
+                    # the size is taken without touching the file object (a seek to the end and back would
+                    # re-synchronise the descriptor's offset with the logical one after every operation
+                    # and so hide whatever depends on it); only a suspected mismatch is confirmed by seeking
+                    end = quiet_size(f)
+                    if end is None or inner.remain != end - pos:
+                        end = f.seek(0, 2)
+                        f.seek(pos)
                     ninv += 1
                     if inner.remain != end - pos and soft is None:
                         # internal invariant: reported, but the history goes on
